@@ -264,6 +264,178 @@ func (w *keyWalk) call(x *ssa.Call, idx int, ctx *keyCtx) {
 	}
 }
 
+// keyMustSources: the struct fields whose loads flow into v on EVERY path (the key "includes" them whatever branch built
+// it): concatenation and pure formatters take the union of their operands, a Phi, the returns of a followed helper and
+// the assignments of a variable cell take the intersection. A key that carries Node.ID on one path only (a wildcard
+// on the other) is therefore not node-dependent.
+func keyMustSources(v ssa.Value) map[*types.Var]bool {
+	w := &keyWalk{seen: map[keyAt]bool{}, ctxs: map[keyAt]*keyCtx{}}
+	set, _ := w.must(v, nil)
+	if set == nil {
+		set = map[*types.Var]bool{}
+	}
+	return set
+}
+
+func keyUnion(a, b map[*types.Var]bool) map[*types.Var]bool {
+	out := map[*types.Var]bool{}
+	for f := range a {
+		out[f] = true
+	}
+	for f := range b {
+		out[f] = true
+	}
+	return out
+}
+
+// keyMeet intersects the sets of the alternatives; alternatives on a cycle under evaluation (top) are neutral.
+type keyMeet struct {
+	set map[*types.Var]bool
+	any bool
+}
+
+func (m *keyMeet) add(s map[*types.Var]bool, top bool) {
+	if top {
+		return
+	}
+	if !m.any {
+		m.any, m.set = true, keyUnion(s, nil)
+		return
+	}
+	for f := range m.set {
+		if !s[f] {
+			delete(m.set, f)
+		}
+	}
+}
+
+func (m *keyMeet) result() (map[*types.Var]bool, bool) {
+	if !m.any {
+		return nil, true
+	}
+	return m.set, false
+}
+
+// must returns the fields included on every path; top == true means "no information yet" (a value on a cycle that is
+// being evaluated), which is neutral for intersections and ignored by unions.
+func (w *keyWalk) must(v ssa.Value, ctx *keyCtx) (map[*types.Var]bool, bool) {
+	if v == nil {
+		return nil, false
+	}
+	k := keyAt{v, ctx}
+	if w.seen[k] {
+		return nil, true
+	}
+	w.seen[k] = true
+	defer delete(w.seen, k)
+	pass := func(x ssa.Value) (map[*types.Var]bool, bool) { return w.must(x, ctx) }
+	cell := func(a *ssa.Alloc) (map[*types.Var]bool, bool) {
+		var m keyMeet
+		sts := storesToCell(a)
+		if len(sts) == 0 {
+			return nil, false
+		}
+		for _, st := range sts {
+			m.add(w.must(st.Val, ctx))
+		}
+		return m.result()
+	}
+	switch x := v.(type) {
+	case *ssa.BinOp:
+		if x.Op != token.ADD {
+			return nil, false
+		}
+		a, ta := w.must(x.X, ctx)
+		b, tb := w.must(x.Y, ctx)
+		if ta && tb {
+			return nil, true
+		}
+		return keyUnion(a, b), false
+	case *ssa.Phi:
+		var m keyMeet
+		for _, e := range x.Edges {
+			m.add(w.must(e, ctx))
+		}
+		return m.result()
+	case *ssa.Extract:
+		if call, ok := x.Tuple.(*ssa.Call); ok {
+			return w.mustCall(call, x.Index, ctx)
+		}
+	case *ssa.Call:
+		return w.mustCall(x, 0, ctx)
+	case *ssa.Parameter:
+		if ctx == nil || ctx.call.Call.StaticCallee() != x.Parent() {
+			return nil, false
+		}
+		for i, p := range x.Parent().Params {
+			if p == x && i < len(ctx.call.Call.Args) {
+				return w.must(ctx.call.Call.Args[i], ctx.up)
+			}
+		}
+	case *ssa.Convert:
+		return pass(x.X)
+	case *ssa.ChangeType:
+		return pass(x.X)
+	case *ssa.MakeInterface:
+		return pass(x.X)
+	case *ssa.Slice:
+		a, ok := x.X.(*ssa.Alloc)
+		if !ok {
+			return pass(x.X)
+		}
+		out := map[*types.Var]bool{}
+		for _, r := range core.Referrers(a) {
+			if ia, ok := r.(*ssa.IndexAddr); ok {
+				for _, r2 := range core.Referrers(ia) {
+					if st, ok := r2.(*ssa.Store); ok && st.Addr == ssa.Value(ia) {
+						s, _ := w.must(st.Val, ctx)
+						out = keyUnion(out, s)
+					}
+				}
+			}
+		}
+		return out, false
+	case *ssa.UnOp:
+		if x.Op != token.MUL {
+			return nil, false
+		}
+		switch a := x.X.(type) {
+		case *ssa.FieldAddr:
+			return map[*types.Var]bool{core.FieldOfAddr(a): true}, false
+		case *ssa.Alloc:
+			return cell(a)
+		case *ssa.FreeVar:
+			if al, ok := closureBinding(x.Parent(), a).(*ssa.Alloc); ok {
+				return cell(al)
+			}
+		}
+	}
+	return nil, false
+}
+
+func (w *keyWalk) mustCall(x *ssa.Call, idx int, ctx *keyCtx) (map[*types.Var]bool, bool) {
+	callee := x.Call.StaticCallee()
+	if callee != nil && callee.Blocks != nil && core.InRepo(core.FuncPkg(callee)) && (ctx == nil || ctx.depth < 4) {
+		in := w.enter(x, ctx)
+		var m keyMeet
+		for _, b := range callee.Blocks {
+			if ret, ok := b.Instrs[len(b.Instrs)-1].(*ssa.Return); ok && idx < len(ret.Results) {
+				m.add(w.must(ret.Results[idx], in))
+			}
+		}
+		return m.result()
+	}
+	if callee != nil && callee.Blocks != nil && core.InRepo(core.FuncPkg(callee)) {
+		return nil, false // too deep: nothing shown
+	}
+	out := map[*types.Var]bool{}
+	for _, a := range x.Call.Args {
+		s, _ := w.must(a, ctx)
+		out = keyUnion(out, s)
+	}
+	return out, false
+}
+
 // storesToCell: stores into an Alloc cell from its function and the closures that capture it.
 func storesToCell(a *ssa.Alloc) []*ssa.Store {
 	var out []*ssa.Store
@@ -371,15 +543,18 @@ func c13KeyCompleteness(c *core.Ctx, r *c13roles, rule string) {
 	// (vi) key sources and key identity
 	srcs := map[*types.Var]bool{}
 	keySources(r.lookup.Index, r.parseNode, map[ssa.Value]bool{}, srcs)
+	// the fields are resolved from what may flow into the key; the key "includes" a field only if it does so on every
+	// path that builds it (a key that drops the node ID for some declarations is not node-dependent)
+	must := keyMustSources(r.lookup.Index)
 	var idOK, hashOK bool
 	for f := range srcs {
 		if f.Name() == "ID" && f.Pkg() != nil && strings.HasSuffix(f.Pkg().Path(), "/idr") {
-			idOK = true
+			idOK = idOK || must[f]
 			r.idField = f
 		}
 		if !f.Exported() && f.Pkg() == r.tp {
 			if b, ok := f.Type().Underlying().(*types.Basic); ok && b.Kind() == types.String {
-				hashOK = true
+				hashOK = hashOK || must[f]
 				r.hashField = f
 			}
 		}
